@@ -1,5 +1,182 @@
 import Ecal.Drivers.Util
+import Ecal.Model.PrattTable
+/-!
+Driver of C08. Payload (space separated; see go/cmd/harness/c08.go):
+  `<src-hex> <ev:0|1> <node>` with
+  `node = Z | N <name-hex> <binding> <ld> <tok> <nmeta> {<P|Q|O> <val-hex>}* <nchildren> <node>*`,
+  `tok = - | T <id> <val-hex> <raw> <identifier> <prefixNewlines> <line> <col>` —
+the AST the REAL parser produced for the source. Result:
+  `txt=<hex of the model printer's text> rt=ok|diff|* idem=ok|* [beh=ok]`
+`rt`/`idem` are what the theorems predict (`ok`), except for the classes listed below, where the code as
+it is deviates (`diff`, with `kf=` and `spec=`) or where no prediction is made (`*`; Go prints `*` for the
+same structurally defined classes and only counts its observations).
+Every pure operator expression is also printed by the expression-level model the theorems are about;
+a difference to the full printer model is reported as MODEL-DRIFT.
+-/
 namespace Ecal.Drv.C08
-/-- model driver of property C08 (stub: not implemented yet) -/
-def run (_args : List String) : IO Unit := Ecal.Drv.lineLoop fun _ => "unimplemented"
+open Ecal.Drv Ecal.Lex Ecal.Parse Ecal.Print
+
+def bytesToString (b : List Nat) : String := String.ofList (b.map Char.ofNat)
+
+def parseMetas : Nat → List String → List Meta → Option (List Meta × List String)
+  | 0, rest, acc => some (acc.reverse, rest)
+  | n+1, k :: v :: rest, acc => do
+    let v ← hexDecode v
+    -- "O" (neither pre nor post comment) is ignored by the printer
+    if k = "O" then parseMetas n rest acc else parseMetas n rest ({ pre := k = "P", val := v } :: acc)
+  | _, _, _ => none
+
+partial def parseNode : List String → Option (Option Node × List String)
+  | "Z" :: rest => some (none, rest)
+  | "N" :: name :: binding :: ld :: rest => do
+    let name ← hexDecode name
+    let binding ← binding.toNat?
+    let (tok, rest) ← (match rest with
+      | "-" :: rest => some (none, rest)
+      | "T" :: id :: val :: raw :: ident :: pnl :: line :: col :: rest => do
+        let id ← id.toNat?
+        let val ← hexDecode val
+        let pnl ← pnl.toNat?
+        let line ← line.toNat?
+        let col ← col.toInt?
+        some (some { id := id, pos := 0, val := val, identifier := ident = "1", allowEscapes := raw = "0",
+                     prefixNl := pnl, line := line, col := col : Tok }, rest)
+      | _ => none)
+    match rest with
+    | nm :: rest =>
+      let nm ← nm.toNat?
+      let (metas, rest) ← parseMetas nm rest []
+      match rest with
+      | nc :: rest =>
+        let nc ← nc.toNat?
+        let rec kids (k : Nat) (rest : List String) (acc : List (Option Node)) : Option (List (Option Node) × List String) :=
+          match k with
+          | 0 => some (acc.reverse, rest)
+          | k+1 => match parseNode rest with
+            | some (c, rest) => kids k rest (c :: acc)
+            | none => none
+        let (cs, rest) ← kids nc rest []
+        some (some (Node.mk (bytesToString name) tok binding .none (if ld = "1" then .infix else .none) cs metas), rest)
+      | _ => none
+    | _ => none
+  | _ => none
+
+partial def anyNode (p : Node → Bool) (n : Node) : Bool :=
+  p n || n.children.any fun c => match c with | some c => anyNode p c | none => false
+
+partial def countNodes (n : Node) : Nat :=
+  1 + (n.children.map fun c => match c with | some c => countNodes c | none => 0).sum
+
+/-- known finding `raw-string-kind`: the source has a raw string literal -/
+def hasRawString (n : Node) : Bool :=
+  anyNode (fun x => match x.tok with | some t => t.id = tSTRING && !t.allowEscapes | none => false) n
+
+/-- known finding `mul-right-brackets`: a times node whose right child is times or div -/
+def hasMulRight (n : Node) : Bool :=
+  anyNode (fun x => x.name = "times" && (match x.children with
+    | [_, some r] => (r.name = "times" || r.name = "div") && r.children.length = 2
+    | _ => false)) n
+
+def hasPostComment (n : Node) : Bool := anyNode (fun x => x.metas.any (!·.pre)) n
+def hasComment (n : Node) : Bool := anyNode (fun x => !x.metas.isEmpty) n
+
+/-- (inside, ownBlank): `inside` = a blank line or a block comment in front of a token that does not
+    start its statement (the printer then writes a newline inside the statement); `le` = the node's text
+    starts the statement (statement position, or first-operand chain of infix nodes over atoms).
+    `ownBlank` = a blank line in front of an infix operator token at the start position. -/
+partial def insideFlags (n : Node) (le : Bool) (sp : Bool := true) : Bool × Bool :=
+  let isInfix := n.led != .none && n.children.length = 2
+  let blank := match n.tok with | some t => decide (t.prefixNl > 1) | none => false
+  let pre := n.metas.any (·.pre)
+  -- a bare `return` used as an operand (`return` NEWLINE `- x` is read as `return - x`)
+  let bareRet := n.name = "return" && n.children.isEmpty && !sp
+  let here := (((blank || pre) && !le) || bareRet, blank && le && isInfix)
+  n.children.zipIdx.foldl (fun acc (c, i) =>
+    match c with
+    | some c =>
+      let cle := n.name = "statements" || (i = 0 && le && isInfix && c.binding = 0)
+      let r := insideFlags c cle (n.name = "statements")
+      (acc.1 || r.1, acc.2 || r.2)
+    | none => acc) here
+
+/-- finding `if-true-else-duplicated`: `if true { … }` without further branches -/
+def hasIfTrue (n : Node) : Bool :=
+  anyNode (fun x => x.name = "if" && (match x.children with
+    | [some g, _] => (match g.children with | some c :: _ => c.name = "true" | _ => false)
+    | _ => false)) n
+
+/-- leftmost operand chain of a statement ends in a unary plus / minus -/
+partial def startsWithSign (n : Node) : Bool :=
+  if n.children.length = 1 && (n.name = "plus" || n.name = "minus") then true
+  else if n.led != .none && n.children.length = 2 then
+    match n.children with
+    | some l :: _ => startsWithSign l
+    | _ => false
+  else false
+
+/-- finding `stmt-starts-with-sign`: a statement other than the first of its block starts with a unary
+    + or - -/
+def hasSignStart (n : Node) : Bool :=
+  anyNode (fun x => x.name = "statements" &&
+    ((x.children.drop 1).any fun c => match c with | some c => startsWithSign c | none => false)) n
+
+/-- a mutex or sink statement followed by another statement (their templates end in a newline) -/
+def blockThenStatement (n : Node) : Bool :=
+  anyNode (fun x => x.name = "statements" &&
+    (x.children.dropLast.any fun c => match c with | some c => c.name = "mutex" || c.name = "sink" | none => false)) n
+
+def runCase (payload : String) : String :=
+  match payload.splitOn " " with
+  | _src :: ev :: rest =>
+    match parseNode rest with
+    | some (some ast, []) =>
+      match prettyPrint (some ast) with
+      | .error .panic => "PANIC-PREDICTED"
+      | .error .nilNode => "PPERR-PREDICTED"
+      | .ok txt =>
+        let raw := hasRawString ast
+        let mul := hasMulRight ast
+        let (inside, ownBlank) := insideFlags ast true
+        let sign := hasSignStart ast
+        let ift := hasIfTrue ast
+        let post := hasPostComment ast || inside
+        let wild := post || ownBlank || hasComment ast || blockThenStatement ast
+        -- cross-check of the expression-level model (the one the theorems are about)
+        let (drift, xc) : Option String × Bool :=
+          match Ecal.C08.toExpr ast #[] with
+          | some (e, atoms) =>
+            let toks := Ecal.C08.printToks Ecal.C08.realPowers Ecal.C08.realExc e
+            let t := Ecal.C08.render atoms toks
+            let exc := Ecal.C08.hasExc Ecal.C08.realExc e
+            if t != txt then (some ("MODEL-DRIFT expr=" ++ hexEnc t ++ " full=" ++ hexEnc txt), true)
+            else if exc != mul then (some "CLASSIFIER-DRIFT", true)
+            else if !exc && Ecal.C08.run Ecal.C08.realPowers (4 * toks.length + 4) 0 toks != some (e, []) then
+              (some "THEOREM-DRIFT", true)
+            else (none, true)
+          | none => (none, false)
+        match drift with
+        | some d => d
+        | none =>
+          let rt := if post then "*" else if raw || mul || sign || ift then "diff" else "ok"
+          let idem := if wild then "*" else if sign then "diff" else "ok"
+          let line (rt : String) := "txt=" ++ hexEnc txt ++ " rt=" ++ rt ++ " idem=" ++ idem ++
+            (if ev = "1" && rt = "ok" then " beh=ok" else "")
+          let kf : Option String :=
+            if post then some "newline-inside-statement"
+            else if sign then some "stmt-starts-with-sign"
+            else if ift then some "if-true-else-duplicated"
+            else if raw then some "raw-string-kind"
+            else if mul then some "mul-right-brackets"
+            else if wild then some "layout-not-idempotent"
+            else none
+          let specRt := if post then "ok" else "ok"
+          let specLine := "txt=" ++ hexEnc txt ++ " rt=" ++ specRt ++ " idem=ok" ++ (if ev = "1" then " beh=ok" else "")
+          line rt
+            ++ (if countNodes ast ≥ 3 then "\tnt=1" else "")
+            ++ (if xc then "\txc=1" else "")
+            ++ (match kf with | some k => "\tkf=" ++ k ++ "\tspec=" ++ specLine | none => "")
+    | _ => "bad-payload"
+  | _ => "bad-payload"
+
+def run (_args : List String) : IO Unit := lineLoop runCase
 end Ecal.Drv.C08
